@@ -332,6 +332,23 @@ class Meta(type):
         return type.__getattribute__(cls, name)
 
 
+class HashMeta(type):
+    """A metaclass whose hashing / equality of the CLASS objects is the program's own code (registries keyed by class do this)."""
+
+    def __hash__(cls):
+        note("metaclass.__hash__", type.__getattribute__(cls, "__name__"))
+        return type.__hash__(cls)
+
+    def __eq__(cls, other):
+        note("metaclass.__eq__", type.__getattribute__(cls, "__name__"))
+        return cls is other
+
+
+class MH(metaclass=HashMeta):
+    def __init__(self, label="MH"):
+        self._label = label
+
+
 class MI(metaclass=Meta):
     def __init__(self, label="MI"):
         self._label = label
@@ -343,8 +360,10 @@ KINDS = {
     "MIclass": "MI", "GAcall": "GAcall('{l}')", "GNcall": "GNcall('{l}')", "GNfab": "GNfab('{l}')", "SK": "SK('key')",
     # an exact, empty collections.defaultdict whose factory is the program's own (stateful) function
     "DF": "mk('DF', '{l}')",
+    # instances (and the class object itself) of a class whose metaclass journals hashing and comparing the class
+    "MH": "MH('{l}')", "MHclass": "MH",
 }
-HASHABLE = {"SK", "GA", "GN", "CP", "CPlie", "CPraise", "Lazy", "DS", "TT", "HB", "MI", "MIclass", "GAcall", "GNcall", "GNfab"}
+HASHABLE = {"MH", "SK", "GA", "GN", "CP", "CPlie", "CPraise", "Lazy", "DS", "TT", "HB", "MI", "MIclass", "GAcall", "GNcall", "GNfab"}
 CALLABLE = {"HB", "GAcall", "GNcall", "GNfab", "MIclass"}
 
 
@@ -364,6 +383,8 @@ def mk(kind, label):
         return collections.defaultdict(_factory(label))
     if kind == "MIclass":
         return MI
+    if kind == "MHclass":
+        return MH
     if kind in ("TL", "TD", "TS", "TT", "SK"):
         obj = {"TL": lambda: TL([1, 2]), "TD": lambda: TD(a=1), "TS": lambda: TS({1}), "TT": lambda: TT((1, 2)), "SK": lambda: SK("key")}[kind]()
         obj._label = label
